@@ -41,7 +41,9 @@ is compared exhaustively on all strings over {a, space, CR, LF} up to length 6 (
 part, counted separately), and on real diffs with one-byte mutations.  Every run contains one directed scenario
 (forced_history): two branches edit the same line and retarget the same symlink, each merges the other
 (criss-cross), so that a conflicting bundle-merge, symlink retargets in 0.9 bundles and criss-cross merges in both
-directions are reached on every seed.
+directions are reached on every seed; and a side branch of 13 revisions (edits, binary add, move, exec bit, symlink
+retarget, rename) is merged back into its OLD first parent, so that bundles (always into 2a) carry more
+inventories between a merge's first parent and the merge than the v4 installer's LRUCache(10) holds.
 
 Oracle (independent of the model): after every install every revision of the target's ancestry is present
 with an equal Revision, an equal StrictTestament3 text, and byte-identical file texts whose sha1 is the one
@@ -75,6 +77,11 @@ diffs in /var/tmp/imp-C39C40/findings):
   directive-without-testament-sha1-does-not-parse: _to_lines omits a None testament_sha1, _from_lines then calls
     the constructor without the required keyword (TypeError) (Lean: directive_no_testament_witness; the model has
     the strict and the tolerant variant, selected by a probe of the tree).
+Seeded change C40b (v4 RevisionInstaller takes ANY cached parent inventory as delta basis but applies the delta
+on parent_ids[0]; needs a merge whose first parent was evicted from the cache): plain VIOLATION on seeds 0-3
+through the long side branch of the directed scenario ("testament of installed revision r08 differs").
+A violation is tagged with the no-final-newline family only when the observed damage is exactly the predicted one
+(patch + marker + bundle glued, no bundle / NoMergeSource), with the testament family only on a strict tree.
 Mutants of the improvement round: BundleTree.get_symlink_target prefers the base tree's target (symlink retarget
 lost in 0.9 bundles) -> plain VIOLATION on every seed through the directed scenario (TestamentMismatch at install);
 _from_lines tolerant of a missing testament (the proposed fix) -> clean for that family, model variant switches.
